@@ -135,6 +135,32 @@ def as_key_arg(kind: str, raw: bytes, how: str):
     return SigningKey(raw) if kind == 'prv' else VerifyKey(raw)
 
 
+# A lock travels: the embedder may keep the Script object the builder returned, only
+# its bytes, its source text (compiled again on arrival), or the bytes decompiled and
+# compiled again.  Every form must behave alike.  Likewise the execution limits may be
+# passed explicitly; generous ones (the defaults, or more) must not move a verdict.
+LOCK_FORMS = ['object', 'object', 'object', 'bytes', 'resrc', 'redec']
+LIMITS = [{}, {}, {},
+          {'stack_max_items': 1024, 'stack_max_item_size': 1024, 'callstack_limit': 128},
+          {'stack_max_items': 4096, 'stack_max_item_size': 8192, 'callstack_limit': 1000},
+          {'callstack_limit': 129}, {'stack_max_items': 1025}, {'stack_max_item_size': 1025}]
+
+
+def in_form(script, how):
+    from .seams import T
+    if how == 'bytes':
+        return script.bytes
+    if how == 'resrc':
+        return T.Script.from_src(script.src)
+    if how == 'redec':
+        return T.Script.from_src(T.Script.from_bytes(script.bytes).src)
+    return script
+
+
+def code_of(script):
+    return script if isinstance(script, bytes) else script.bytes
+
+
 PREFIXES = ['', '', '', 'push d1 pop0', 'true not pop0', '# a comment # push x00 pop0']
 
 
